@@ -14,6 +14,7 @@
 import KadDHT.Model.Sched
 import KadDHT.Proofs.Bits
 import KadDHT.Model.Schedule
+import KadDHT.Generated.Facts
 namespace KadDHT.C17
 open KadDHT KadDHT.Sched
 
@@ -450,5 +451,93 @@ example : PrefixFree [[true, true], [true, false], [false, true]] := by simp [Pr
 example : batchReprovide [[true, true], [true, false], [false, true]] [true] [[true]] = [[false, true], [true]] := by decide
 
 end schedule
+
+/-! ### slots that must not be lost (findings F24 and F25) -/
+
+/-- F24 repaired: after a start, whatever the rebuilt schedule looks like, the keys of a region last reprovided at `ts`
+    are advertised again no later than one interval plus the allowed delay after `ts` — or at once, if that instant
+    has already passed -/
+theorem startup_gap_bounded (I D now ts untilDue : Nat) :
+    nextAdvert (recentRepaired I D now ts untilDue) now untilDue ≤ max now (ts + I + D) := by
+  unfold nextAdvert recentRepaired
+  by_cases h : now + untilDue ≤ ts + I + D
+  · simp [h]; omega
+  · simp [h]; omega
+
+/-- F24 as it was: an entry younger than one interval always counted as recent, and its keys could wait for a slot
+    almost two intervals after their last advertisement (the instants of corpus case f24-restart-coarser-region:
+    interval 3600 s, delay 300 s, last advertised at 7425 s, restarted at 10926 s, the coarser region due at 14400 s) -/
+theorem startup_legacy_gap :
+    ∃ I D now ts untilDue, untilDue ≤ I ∧ ts ≤ now ∧ recentLegacy I now ts = true ∧
+      nextAdvert (recentLegacy I now ts) now untilDue > ts + I + D + I / 2 :=
+  ⟨3600, 300, 10926, 7425, 3474, by decide⟩
+
+theorem takeOver_fold (I cur : Nat) : ∀ (subs : List Nat) (own : Nat),
+    timeBetween I cur (takeOver I cur own subs) ≤ timeBetween I cur own ∧
+    ∀ t ∈ subs, timeBetween I cur (takeOver I cur own subs) ≤ timeBetween I cur t := by
+  intro subs
+  induction subs with
+  | nil => intro own; simp [takeOver]
+  | cons t rest ih =>
+    intro own
+    have hstep : takeOver I cur own (t :: rest) =
+        takeOver I cur (if timeBetween I cur t < timeBetween I cur own then t else own) rest := by
+      simp [takeOver]
+    rw [hstep]
+    have ⟨h1, h2⟩ := ih (if timeBetween I cur t < timeBetween I cur own then t else own)
+    by_cases hlt : timeBetween I cur t < timeBetween I cur own
+    · simp only [hlt, if_true] at h1 h2 ⊢
+      refine ⟨by omega, ?_⟩
+      intro u hu
+      cases List.mem_cons.mp hu with
+      | inl h => subst h; exact h1
+      | inr h => exact h2 u h
+    · simp only [hlt, if_false] at h1 h2 ⊢
+      refine ⟨h1, ?_⟩
+      intro u hu
+      cases List.mem_cons.mp hu with
+      | inl h => subst h; omega
+      | inr h => exact h2 u h
+
+/-- F25 repaired: a prefix scheduled for new keys is due no later than its own slot and no later than any of the
+    scheduled regions it subsumes was: no key of those regions is advertised later because of the merge -/
+theorem takeOver_not_later (I cur own : Nat) (subs : List Nat) :
+    timeBetween I cur (takeOver I cur own subs) ≤ timeBetween I cur own ∧
+    ∀ t ∈ subs, timeBetween I cur (takeOver I cur own subs) ≤ timeBetween I cur t :=
+  takeOver_fold I cur subs own
+
+/-- … and the slot it gets is its own or one of theirs -/
+theorem takeOver_mem (I cur : Nat) : ∀ (subs : List Nat) (own : Nat), takeOver I cur own subs = own ∨ takeOver I cur own subs ∈ subs := by
+  intro subs
+  induction subs with
+  | nil => intro own; simp [takeOver]
+  | cons t rest ih =>
+    intro own
+    have hstep : takeOver I cur own (t :: rest) =
+        takeOver I cur (if timeBetween I cur t < timeBetween I cur own then t else own) rest := by
+      simp [takeOver]
+    rw [hstep]
+    by_cases hlt : timeBetween I cur t < timeBetween I cur own
+    · simp only [hlt, if_true]
+      cases ih t with
+      | inl h => right; rw [h]; exact List.mem_cons_self
+      | inr h => right; exact List.mem_cons_of_mem _ h
+    · simp only [hlt, if_false]
+      cases ih own with
+      | inl h => left; exact h
+      | inr h => right; exact List.mem_cons_of_mem _ h
+
+/-- F25 as it was (the prefix always got its own slot): the instants of corpus case f25: interval 3600 s, key 5 started at
+    offset 1803 s under prefix 10 (slot 1800 s, just passed), which subsumed region 101 due at 2250 s — 447 s away
+    instead of 3597 s -/
+theorem own_slot_legacy_later :
+    timeBetween 3600 1803 2250 = 447 ∧ timeBetween 3600 1803 1800 = 3597 ∧ takeOver 3600 1803 1800 [2250] = 2250 := by decide
+
+/-- the source still carries both repairs (regenerated from provider/provider.go on every run) -/
+theorem fact_slot_repairs :
+    "t.Add(s.reprovideInterval+s.maxReprovideDelay).Before(now.Add(s.timeUntilScheduled(key)))" ∈ Facts.loadRecentConds ∧
+    "!justReprovided" ∈ Facts.schedulePrefixConds ∧
+    "s.timeUntil(t)<s.timeUntil(nextReprovideTime)" ∈ Facts.schedulePrefixConds ∧
+    "reprovide&&err==nil&&len(coveredPrefix)>=len(prefix)" ∈ Facts.individualProvideConds := by decide
 
 end KadDHT.C17
